@@ -203,7 +203,9 @@ func (s *keystore) worker() {
 				newKeys, err := s.put(op.ctx, op.keys)
 				op.response <- operationResponse{multihashes: newKeys, err: err}
 				if err != nil {
-					if size, err := refreshSize(op.ctx, s.ds); err == nil {
+					// Recount even if the caller has given up: its context is the usual
+					// reason the operation failed, and the counter must not stay stale.
+					if size, err := refreshSize(context.WithoutCancel(op.ctx), s.ds); err == nil {
 						s.size = size
 					} else {
 						s.logger.Error("keystore: failed to refresh size after put: ", err)
@@ -222,7 +224,7 @@ func (s *keystore) worker() {
 				err := s.delete(op.ctx, op.keys)
 				op.response <- operationResponse{err: err}
 				if err != nil {
-					if size, err := refreshSize(op.ctx, s.ds); err == nil {
+					if size, err := refreshSize(context.WithoutCancel(op.ctx), s.ds); err == nil {
 						s.size = size
 					} else {
 						s.logger.Error("keystore: failed to refresh size after delete: ", err)
@@ -235,7 +237,7 @@ func (s *keystore) worker() {
 				if err == nil {
 					s.size = 0
 				} else {
-					if size, err := refreshSize(op.ctx, s.ds); err == nil {
+					if size, err := refreshSize(context.WithoutCancel(op.ctx), s.ds); err == nil {
 						s.size = size
 					} else {
 						s.logger.Error("keystore: failed to refresh size after empty: ", err)
